@@ -58,8 +58,9 @@ class PosFilter:
         return (tile.pos.n, tile.pos.x, tile.pos.y) in self.acc
 
 
-def _run(base, dflt, override, depth, planetary, parallel, passes, acc):
-    """passes: list of samplers; unfiltered (acc None) uses sample_layer (clobber), else sample_layer_filtered"""
+def _run(base, dflt, override, depth, planetary, parallel, passes, acc, via_builder=False):
+    """passes: list of samplers; unfiltered (acc None) uses sample_layer (clobber), else sample_layer_filtered;
+    `via_builder`: the same through `Builder.toast_base(sampler, depth, is_planet=…, [tile_filter=…])`, one Builder per pass"""
     import toasty.par_util
     toasty.par_util.SHOW_INFORMATIONAL_MESSAGES = False
     from toasty import toast
@@ -69,7 +70,15 @@ def _run(base, dflt, override, depth, planetary, parallel, passes, acc):
     with warnings.catch_warnings():
         warnings.simplefilter("ignore")
         for s in passes:
-            if acc is None:
+            if via_builder:
+                from toasty.builder import Builder
+                kw = {"parallel": parallel}
+                if acc is not None:
+                    kw["tile_filter"] = PosFilter(acc)
+                elif override is not None:
+                    kw["format"] = override
+                Builder(pio).toast_base(s, depth, is_planet=planetary, **kw)
+            elif acc is None:
                 toast.sample_layer(pio, s, depth, coordsys=cs, format=override, parallel=parallel)
             else:
                 toast.sample_layer_filtered(pio, PosFilter(acc), s, depth, coordsys=cs, parallel=parallel)
@@ -145,6 +154,9 @@ def main():
     # always: the whole-sphere tile through the filtered entry point, planetary (the only tile whose coordinates depend on the
     # coordinate system handed to the sampler rather than on the Tile)
     configs.append(("npy", None, "f64", True, 0, True))
+    if len(configs) % 2 == 0:
+        configs.append(("npy", None, "f64", False, 1, False))
+    configs.append(("npy", None, "f64", True, 2, True))       # odd index: filtered, planetary, through the Builder
     try:
         for ci, (dflt, ov, kind, filtered, depth, planetary) in enumerate(configs):
             cs = CS.PLANETARY if planetary else CS.ASTRONOMICAL
@@ -175,9 +187,13 @@ def main():
                     with warnings.catch_warnings():
                         warnings.simplefilter("ignore")
                         pio0.write_image(Pos(*leaves[0]), Image.from_array(junk), format=wf)
-                st, val = run_isolated(_run, (base, dflt, ov, depth, planetary, par, passes, acc), 240)
-                h.count("runs", f"{'filtered' if filtered else 'full'}/{wf}/par{par}")
-                desc = f"{'sample_layer_filtered' if filtered else 'sample_layer'}(depth {depth}, {'planetary' if planetary else 'astronomical'}, default {dflt}, format={ov}, {kind}, parallel={par})"
+                # every other configuration goes through the Builder entry point (`toast_base`), which decides the coordinate system
+                # from `is_planet` and hands everything else on
+                via_builder = ci % 2 == 1
+                st, val = run_isolated(_run, (base, dflt, ov, depth, planetary, par, passes, acc, via_builder), 240)
+                h.count("runs", f"{'filtered' if filtered else 'full'}/{wf}/par{par}" + ("/builder" if via_builder else ""))
+                desc = (("Builder.toast_base[" if via_builder else "") + f"{'sample_layer_filtered' if filtered else 'sample_layer'}(depth {depth}, {'planetary' if planetary else 'astronomical'}, default {dflt}, format={ov}, {kind}, parallel={par})"
+                        + ("]" if via_builder else ""))
                 if st != "ok":
                     h.violation(f"run:{par}", f"{desc}: {st} {val}", input={"config": [dflt, ov, kind, filtered, depth, planetary], "parallel": par})
                     continue
